@@ -75,3 +75,50 @@ package banner
 //@     do passed = passed + 1
 //@   ensures[C14:swallow-original-body-when-framing] !w.writeBytes ==> passed == 0 && r0 == len(bs) && r1 == nil
 //@   ensures[C14:pass-through-otherwise] w.writeBytes ==> passed == 1
+
+// ---- the frame page (C14): rendered from the fixed template with the requested URL, the configured banner and height ----
+//@ func (*bannerResponseWriter).getBanner props(C14,C07)
+//@   requires w != nil && w.targetURL != nil
+//@   assigns nothing
+//@   ghost ustr string
+//@   ghost rendered int = 0
+//@   ghost strs int = 0
+//@   call (*url.URL).String
+//@     assert[C14:frame-embeds-the-requested-url] arg0 == w.targetURL && strs == 0
+//@     do ustr = ret0
+//@     do strs = strs + 1
+//@   call (*template.Template).Execute
+//@     assert[C14:frame-rendered-from-the-wrapper-template-with-this-request] rendered == 0 && strs == 1 && arg0 == frameWrapperTmpl && arg2 == box(templateVals)
+//@     |   && templateVals.TargetURL == ustr && templateVals.Banner == w.bannerHTML && templateVals.BannerHeight == w.bannerHeight && templateVals.FavIconLink == favIconLink
+//@     do rendered = rendered + 1
+//@   ensures[C14:rendered-once] rendered == 1
+
+// ---- the handler (C14): non-HTML requests get the original writer; HTML requests get a banner writer around it ----
+//@ func Proxy$1 props(C14,C07)
+//@   requires r != nil && r.URL != nil && wrapped != nil && w != nil
+//@   ghost served int = 0
+//@   ghost html bool = false
+//@   ghost framed bool = false
+//@   ghost askedHTML int = 0
+//@   ghost askedFramed bool = false
+//@   call isHTMLRequest
+//@     assert[C14:decide-on-this-request] arg0 == r && askedHTML == 0
+//@     do html = ret0
+//@     do askedHTML = askedHTML + 1
+//@   call isAlreadyFramed
+//@     assert[C14:framing-decided-on-this-request] arg0 == r && html && !askedFramed
+//@     do framed = ret0
+//@     do askedFramed = true
+//@   call (http.Handler).ServeHTTP
+//@     assert[C14:wrapped-handler-once-with-this-request] served == 0 && askedHTML == 1 && arg0 == wrapped && arg2 == r
+//@     assert[C14:non-html-requests-get-the-original-writer] !html ==> arg1 == old(w)
+//@     assert[C14:html-requests-get-a-banner-writer-around-the-original] html ==> askedFramed && typeis(arg1, "*bannerResponseWriter") && !allocated0(unboxRef(arg1, "*bannerResponseWriter"))
+//@     |   && cast(unboxRef(arg1, "*bannerResponseWriter"), "*bannerResponseWriter").wrapped == old(w)
+//@     |   && cast(unboxRef(arg1, "*bannerResponseWriter"), "*bannerResponseWriter").targetURL == r.URL
+//@     |   && cast(unboxRef(arg1, "*bannerResponseWriter"), "*bannerResponseWriter").isAlreadyFramed == framed
+//@     |   && cast(unboxRef(arg1, "*bannerResponseWriter"), "*bannerResponseWriter").bannerHTML == bannerHTML
+//@     |   && cast(unboxRef(arg1, "*bannerResponseWriter"), "*bannerResponseWriter").bannerHeight == bannerHeight
+//@     |   && cast(unboxRef(arg1, "*bannerResponseWriter"), "*bannerResponseWriter").favIconURL == favIconURL
+//@     |   && !cast(unboxRef(arg1, "*bannerResponseWriter"), "*bannerResponseWriter").wroteHeader && !cast(unboxRef(arg1, "*bannerResponseWriter"), "*bannerResponseWriter").writeBytes
+//@     do served = served + 1
+//@   ensures[C14:served-once] served == 1
